@@ -2,7 +2,8 @@
   Driver for the `C11.em` correspondence stream: runs the event-manager model M (`Model/EventManager.lean`) on
   {"cap": maxsize of the real queue (0 = unbounded), "n": number of events fired, "fails": [event indices whose
   handler raises], "sched": [k0, k1, …] = how many handler iterations are scheduled after the i-th fire
-  (missing = 0)} and then closes.  Answer: {"blocked": "fire"|"close"|null, "handled": […], "pending": idx|null}.
+  (missing = 0), optional "join_limit": k = `handle_events` waits for at most k further handler iterations
+  (`EM.closeWithin`; absent / null = the unlimited `thread.join()`)} and then closes.  Answer: {"blocked": "fire"|"close"|null, "handled": […], "pending": idx|null}.
   Run: `lake env lean --run drivers/EM.lean`
 -/
 import LccModel.Proto
@@ -24,10 +25,10 @@ def handleReq (j : Json) : Except String Json := do
   match run fails (init cap) ops with
   | none => pure (Json.mkObj [("blocked", Json.str "fire"), ("handled", Json.arr #[]), ("pending", Json.null)])
   | some s =>
-    match close fails s with
+    match closeWithin fails (← getOptNat j "join_limit") s with
     | none => pure (Json.mkObj [("blocked", Json.str "close"), ("handled", Json.arr (s.handled.map (fun (x : Nat) => Json.num (x : Nat))).toArray),
                                ("pending", optNat s.pending)])
     | some s' => pure (Json.mkObj [("blocked", Json.null), ("handled", Json.arr (s'.handled.map (fun (x : Nat) => Json.num (x : Nat))).toArray),
-                                  ("pending", optNat s'.pending)])
+                                  ("pending", optNat s'.pending), ("thread_ended", Json.bool (threadEnded s'))])
 
 def main : IO Unit := loop (wrap handleReq)
